@@ -207,6 +207,11 @@ pub struct WireConfig {
     pub nodes_packets: u8,
     /// local record seq of each node (1..=3)
     pub seqs: Vec<u8>,
+    /// peers (index) whose APPLICATION answers record requests (FINDNODE [0]) with a validly signed
+    /// record of another identity that carries no address (a byzantine application behind an
+    /// honest transport)
+    #[serde(default)]
+    pub foreign_enr_answer: Vec<u8>,
     /// session timeout of node 0 (V) in real milliseconds (default: the crate's 1 day)
     #[serde(default)]
     pub v_session_timeout_ms: Option<u64>,
@@ -543,7 +548,13 @@ impl World {
                 for p in 0..k {
                     let mut nodes = Vec::new();
                     if p == 0 && distances.contains(&0) {
-                        nodes.push(self.nodes[i].enr.clone());
+                        if self.cfg.foreign_enr_answer.contains(&(i as u8)) {
+                            // record of another identity, no address fields
+                            let k = attacker_key(0);
+                            nodes.push(Enr::builder().seq(7).build(&k).expect("record"));
+                        } else {
+                            nodes.push(self.nodes[i].enr.clone());
+                        }
                     }
                     resps.push(Response { id: req.id.clone(), body: ResponseBody::Nodes { total: k, nodes } });
                 }
